@@ -26,7 +26,7 @@ LEAN_MODULES = ["NiftyVerif.Core.Proto", "NiftyVerif.Props.C33"]
 DRIVER = "Driver/C33.lean"
 OBLIGATIONS = ["NiftyVerif.C33." + t for t in (
     "flatten_map₂", "binary_flat", "flatten_broadcast_scalar", "unary_flat", "size_flat", "sum_flat", "max_flat",
-    "min_flat", "vdot_flat", "where_flat", "norm_flat_1", "norm_flat_inf", "norm_flat_2", "slices_moveaxis", "stack_moveaxis",
+    "min_flat", "vdot_flat", "vdot_flat_complex", "sum_flat_complex", "where_flat", "norm_flat_1", "norm_flat_inf", "norm_flat_2", "slices_moveaxis", "stack_moveaxis",
     "reord_inverse", "smap_eq_vmap", "asFound_none_returns_input", "lscan_eq_scan")]
 RULE = ("pytrees: nested dict/tuple/list, depth<=3, 1-6 leaves of shape () .. 3-D with integer entries; operators: all "
         "binary/unary overloads of Vector with tree/tree, scalar/tree, tree/scalar and mismatching operands; reductions; where; "
@@ -38,7 +38,7 @@ TRUSTED_BASE = ["Lean 4.33 kernel; axioms propext/Classical.choice/Quot.sound on
                 "leaves; jax.tree_util flattening order (sorted dict keys) and jnp entry-wise operators are executed, not proved",
                 "jax.vmap is the reference for the maps (vmapSpec in the model is its specification)"]
 ASSUMPTIONS = ["integer leaves (class E); norm(ord=2) compared through its square with relative tolerance 1e-12 (class T)",
-               "complex leaves: oracle only (flat semantics with NumPy), not sent to the model"]
+               "complex leaves are Gaussian integers (exact in complex128) and are sent to the model (GInt)"]
 
 BINOPS = {"add": operator.add, "sub": operator.sub, "mul": operator.mul, "floordiv": operator.floordiv,
           "mod": operator.mod, "pow": operator.pow, "lshift": operator.lshift, "rshift": operator.rshift,
@@ -609,6 +609,63 @@ def oracle_cplx(case):
     return None
 
 
+def _ctree_json(case, k):
+    """complex JSON tree with [re, im] leaves from the two integer trees of a cplx case"""
+    def go(a, b):
+        if "leaf" in a:
+            return {"leaf": [a["leaf"][0], [[x, y] for x, y in zip(a["leaf"][1], b["leaf"][1])]]}
+        return {"node": [a["node"][0], [go(x, y) for x, y in zip(a["node"][1], b["node"][1])]]}
+    return go(case[k], case[k + "i"])
+
+
+def _cfrom_py(p):
+    from nifty.re.tree_math.vector import Vector
+    if isinstance(p, Vector):
+        return _cfrom_py(p.tree)
+    if isinstance(p, dict):
+        ks = sorted(p.keys())
+        return {"node": ["dict:" + ",".join(ks), [_cfrom_py(p[k]) for k in ks]]}
+    if isinstance(p, (tuple, list)):
+        return {"node": ["tuple" if isinstance(p, tuple) else "list", [_cfrom_py(c) for c in p]]}
+    a = np.asarray(p)
+    flat_ = a.reshape(-1)
+    return {"leaf": [list(a.shape), [[int(np.real(z)), int(np.imag(z))] if float(np.real(z)) == int(np.real(z)) and
+                                     float(np.imag(z)) == int(np.imag(z)) else [repr(complex(z)), 0] for z in flat_]]}
+
+
+def cplx_request(case):
+    cop = case.get("cop", "cvdot")
+    if cop == "cvdot":
+        return dict(op="cvdot", a=_ctree_json(case, "a"), b=_ctree_json(case, "b"))
+    if cop.startswith("bin:"):
+        return dict(op="cbinop", f=cop[4:], lhs={"tree": _ctree_json(case, "a")}, rhs={"tree": _ctree_json(case, "b")})
+    if cop.startswith("sbin:"):
+        return dict(op="cbinop", f=cop[5:], lhs={"scalar": [2, 1]}, rhs={"tree": _ctree_json(case, "a")})
+    return dict(op="cunary", f=cop[3:], x=_ctree_json(case, "a"))
+
+
+def cplx_real(case):
+    import nifty.re as jft
+    from nifty.re.tree_math.vector import Vector
+    a, b = _ctree(case, "a"), _ctree(case, "b")
+    cop = case.get("cop", "cvdot")
+    try:
+        if cop == "cvdot":
+            v, s_ = complex(jft.vdot(a, b)), complex(jft.sum(a))
+            n2 = float(jft.norm(a, ord=2))
+            return dict(vdot=[int(v.real), int(v.imag)], sum=[int(s_.real), int(s_.imag)], _norm2=n2)
+        va, vb = Vector(a), Vector(b)
+        if cop.startswith("bin:"):
+            r = {"add": va + vb, "sub": va - vb, "mul": va * vb}[cop[4:]]
+        elif cop.startswith("sbin:"):
+            r = {"add": (2 + 1j) + va, "sub": (2 + 1j) - va, "mul": (2 + 1j) * va}[cop[5:]]
+        else:
+            r = {"neg": -va, "pos": +va, "conj": va.conj(), "real": va.real, "imag": va.imag}[cop[3:]]
+        return {"tree": _cfrom_py(r)}
+    except Exception as e:
+        return {"error": type(e).__name__}
+
+
 # ---- forests (tuples of equally structured trees): oracle only ---------------------------------------------------------------
 def oracle_forest(case):
     import nifty.re as jft
@@ -704,7 +761,7 @@ def model_request(case):
         t = case["lhs"].get("tree") or case["rhs"].get("tree")
         return dict(op="reduce", x=t)                # float division is not modelled: placeholder request
     if case["op"] == "cplx":
-        return dict(op="reduce", x=case["a"])        # complex leaves are not modelled: placeholder request
+        return cplx_request(case)
     if case["op"] == "forest":
         return dict(op="reduce", x=case["trees"][0])
     return {k: v for k, v in case.items() if k != "how"}
@@ -730,7 +787,8 @@ def run(ctx):
         cases.append(gen_smap(rng))
     for _ in range(ctx.n(25, 200)):
         a = gen_tree(rng, rng.choice([1, 2, 3]), -5, 5)
-        cases.append(dict(op="cplx", a=a, ai=same_struct(rng, a, -5, 5), b=same_struct(rng, a, -5, 5), bi=same_struct(rng, a, -5, 5)))
+        cop = rng.choice(["cvdot", "cvdot", "bin:add", "bin:sub", "bin:mul", "sbin:sub", "sbin:mul", "un:conj", "un:real", "un:imag", "un:neg"])
+        cases.append(dict(op="cplx", cop=cop, a=a, ai=same_struct(rng, a, -5, 5), b=same_struct(rng, a, -5, 5), bi=same_struct(rng, a, -5, 5)))
     for _ in range(ctx.n(20, 150)):
         a = gen_tree(rng, rng.choice([1, 2, 3]))
         cases.append(dict(op="forest", trees=[a] + [same_struct(rng, a) for _ in range(rng.randrange(0, 4))], how=rng.randrange(2)))
@@ -739,8 +797,22 @@ def run(ctx):
         k = c["op"]
         ctx.stat("op:" + k + (":" + c["f"] if "f" in c else ""))
         try:
-            if k in ("cplx", "forest"):
-                ctx.case(c, num_leaves(c["a"] if k == "cplx" else c["trees"][0]) >= 2)
+            if k == "cplx":
+                impl = cplx_real(c)
+                n2 = impl.pop("_norm2", None)
+                if n2 is not None and isinstance(m.get("norm2sq"), int):
+                    if abs(n2 - m["norm2sq"] ** 0.5) > 1e-12 * (1 + m["norm2sq"] ** 0.5):
+                        ctx.disagree(c, n2, m["norm2sq"], "C33 norm(complex tree, 2) vs sqrt of the model's sum |z|^2 (class T)")
+                    m = {kk: m.get(kk) for kk in impl}
+                ctx.compare(c, impl, m, note="C33 complex (Gaussian-integer) leaves: real tree_math vs Lean model",
+                            nontrivial=num_leaves(c["a"]) >= 2)
+                ctx.stat("cplx:" + c.get("cop", "cvdot"))
+                r = oracle(c)
+                if r:
+                    ctx.counterexample(c, *r)
+                continue
+            if k in ("forest",):
+                ctx.case(c, num_leaves(c["trees"][0]) >= 2)
                 r = oracle(c)
                 if r:
                     ctx.counterexample(c, *r)
